@@ -221,6 +221,7 @@ def case_surrogate(pool, B, rows, dims):
             space = _space(dims)
             pts, losses = _history(ctx, rows, dims)
             rec = {}
+            npred = [0]
 
             class Stub(MLSurrogateSampler):
                 def sample_candidates(self, n, sp, p, l):
@@ -233,37 +234,40 @@ def case_surrogate(pool, B, rows, dims):
 
                 def predict(self, X):  # noqa: N803
                     rec["pred_in"] = X
-                    rec["pred"] = np.array([ctx.real(f"pred{i}") for i in range(len(X))], dtype=object)
+                    rec["pred"] = np.array([ctx.real(f"pred{npred[0] + i}") for i in range(len(X))], dtype=object)
                     return rec["pred"]
 
             s = Stub(B, random_state=1, candidate_pool_size=pool, max_deduplication_passes=0)
-            out = s.sample(space, pts, losses)
-            ctx.prove(z3.BoolVal(rec["fit"][0] is pts and rec["fit"][1] is losses), "fit_gets_history", "fit(existing_points, existing_losses) received the history itself")
-            ctx.prove(z3.BoolVal(rec["pred_in"] is not None and len(rec["pred"]) == pool and out.shape == (B, dims)), "lowest_predictions_returned", "predictions for the whole pool; batch_size rows returned")
-            cand, pred = rec["cand"], rec["pred"]
-            # every returned row is a pool row, the returned ones have the lowest predictions
-            used = []
-            ok = True
-            for r in range(B):
-                m = [k for k in range(pool) if k not in used and all(bool(out[r, d] == cand[k, d]) for d in range(dims))]
-                # prefer the match consistent with the sorted order decided on this path
-                if not m:
-                    ok = False
-                    break
-                m.sort(key=lambda k: 0)
-                best = None
-                for k in m:
-                    if all(bool(pred[k] <= pred[q]) for q in range(pool) if q not in used + [k]):
-                        best = k
+            # two successive calls on the same sampler object; the second with a DIFFERENT history of the same size
+            pts2 = pts.copy()[::-1].copy()
+            losses2 = np.array([ctx.real(f"gl{r}") for r in range(rows)], dtype=object)
+            for call, (hp, hl) in enumerate([(pts, losses), (pts2, losses2)]):
+                rec.clear()
+                npred[0] = call * pool
+                out = s.sample(space, hp, hl)
+                ctx.prove(z3.BoolVal(rec.get("fit") is not None and rec["fit"][0] is hp and rec["fit"][1] is hl), "fit_gets_history", f"call {call}: fit(existing_points, existing_losses) received the history of this call")
+                if rec.get("fit") is None or "pred" not in rec:
+                    continue
+                ctx.prove(z3.BoolVal(rec["pred_in"] is not None and len(rec["pred"]) == pool and out.shape == (B, dims)), "lowest_predictions_returned", "predictions for the whole pool; batch_size rows returned")
+                cand, pred = rec["cand"], rec["pred"]
+                used = []
+                ok = True
+                for r in range(B):
+                    m = [k for k in range(pool) if k not in used and all(bool(out[r, d] == cand[k, d]) for d in range(dims))]
+                    if not m:
+                        ok = False
                         break
-                if best is None:
-                    best = m[0]
-                used.append(best)
-            ctx.prove(z3.BoolVal(ok), "lowest_predictions_returned", "each returned row is (the snapped image of) a distinct pool row")
-            if ok:
-                rest = [q for q in range(pool) if q not in used]
-                ctx.prove(z3.And(*[lift(pred[k]) <= lift(pred[q]) for k in used for q in rest]) if rest else z3.BoolVal(True), "lowest_predictions_returned",
-                          f"returned pool rows {used} have predictions <= all others")
+                    best = None
+                    for k in m:
+                        if all(bool(pred[k] <= pred[q]) for q in range(pool) if q not in used + [k]):
+                            best = k
+                            break
+                    used.append(best if best is not None else m[0])
+                ctx.prove(z3.BoolVal(ok), "lowest_predictions_returned", "each returned row is (the snapped image of) a distinct pool row")
+                if ok:
+                    rest = [q for q in range(pool) if q not in used]
+                    ctx.prove(z3.And(*[lift(pred[k]) <= lift(pred[q]) for k in used for q in rest]) if rest else z3.BoolVal(True), "lowest_predictions_returned",
+                              f"call {call}: returned pool rows {used} have predictions <= all others")
 
     def replay(cex):
         v = cex.values
@@ -287,23 +291,29 @@ def case_surrogate(pool, B, rows, dims):
                 return np.array(preds[: len(X)])
 
         s = Stub(B, random_state=1, candidate_pool_size=pool, max_deduplication_passes=0)
-        try:
-            out = s.sample(space, pts, losses)
-        except Exception as e:  # noqa: BLE001
-            return True, f"raised {type(e).__name__}: {e}"
         msgs = []
-        if rec.get("fit") is None or rec["fit"][0] is not pts or rec["fit"][1] is not losses:
-            msgs.append("fit did not receive the history arrays")
-        cand = rec["cand"]
-        order = sorted(range(pool), key=lambda k: preds[k])
-        thr = sorted(preds)[B - 1]
-        for r in range(B):
-            ks = [k for k in range(pool) if np.allclose(cand[k], out[r])]
-            if not ks or min(preds[k] for k in ks) > thr:
-                msgs.append(f"returned row {out[r].tolist()} is not among the {B} lowest-prediction pool rows (pool={cand.tolist()}, predictions={preds})")
+        pts2 = pts[::-1].copy()
+        losses2 = np.array([float(f(v.get(f"gl{r}", 10.0 - r))) for r in range(rows)], dtype=float)
+        for call, (hp, hl) in enumerate([(pts, losses), (pts2, losses2)]):
+            rec.clear()
+            cur_preds = [float(f(v.get(f"pred{call * pool + i}", i))) for i in range(pool)]
+            preds[:] = cur_preds
+            try:
+                out = s.sample(space, hp, hl)
+            except Exception as e:  # noqa: BLE001
+                return True, f"raised {type(e).__name__}: {e}"
+            if rec.get("fit") is None or rec["fit"][0] is not hp or rec["fit"][1] is not hl:
+                msgs.append(f"call {call}: fit did not receive the history arrays of this call")
+                continue
+            cand = rec["cand"]
+            thr = sorted(preds)[B - 1]
+            for r in range(B):
+                ks = [k for k in range(pool) if np.allclose(cand[k], out[r])]
+                if not ks or min(preds[k] for k in ks) > thr:
+                    msgs.append(f"call {call}: returned row {out[r].tolist()} is not among the {B} lowest-prediction pool rows (pool={cand.tolist()}, predictions={preds})")
         return bool(msgs), "; ".join(msgs) or "ok"
 
-    return Case(name, body, replay, time_budget=200)
+    return Case(name, body, replay, time_budget=600, split=4 if pool >= 4 else 2)
 
 
 def case_bestbatch(dims, B, rows, prange):
@@ -398,7 +408,6 @@ def cases(tier, seed):
         cs.append(case_untouched(k, rows, 1 if k in ("cors", "gp-ei", "bestbatch") else 2, 1 if k in ("gp-ei", "cors", "rf") else 2))
     cs.append(case_surrogate(3, 1, 2, 1))
     cs.append(case_surrogate(3, 2, 2, 2))
-    cs.append(case_surrogate(4, 2, 3, 1))
     cs.append(case_bestbatch(1, 1, 2, 3))
     cs.append(case_bestbatch(2, 1, 3, 2))
     cs.append(case_bestbatch(1, 2, 3, 3))
@@ -406,7 +415,7 @@ def cases(tier, seed):
     if tier == "thorough":
         for k in kinds:
             cs.append(case_untouched(k, 3 if k in ("gp-ei", "rf", "cors") else 4, 2, 2))
-        cs.append(case_surrogate(5, 2, 3, 2))
+        cs.append(case_surrogate(4, 2, 3, 1))
         cs.append(case_bestbatch(3, 1, 3, 3))
         cs.append(case_bestbatch(2, 2, 2, 3))
         cs.append(case_bestbatch(1, 2, 3, 4))
